@@ -18,6 +18,12 @@
 #include "connection_set.hpp"
 
 
+#ifdef TRROUTING_VERIF
+// Verification hook: yield points around the shared per-scenario connection cache. The function is
+// supplied by the verification harness (a no-op in the server binary).
+extern "C" void trrouting_verif_point(const char* point);
+#endif
+
 namespace TrRouting {
 
   TransitData::TransitData(DataFetcher& fetcher, bool cacheAllScenarios) :
@@ -345,8 +351,14 @@ namespace TrRouting {
   std::shared_ptr<ConnectionSet> TransitData::getConnectionsForScenario(const Scenario & scenario) const {
     std::optional<std::shared_ptr<ConnectionSet>> optCurrentCache = scenarioConnectionCache->get(scenario.uuid);
     if (optCurrentCache.has_value()) {
+#ifdef TRROUTING_VERIF
+      trrouting_verif_point("cache_hit");
+#endif
       return optCurrentCache.value();
     }
+#ifdef TRROUTING_VERIF
+    trrouting_verif_point("cache_miss");
+#endif
 
     spdlog::debug("Computing connection cache for scenario {}...", boost::uuids::to_string(scenario.uuid));
     // Create the cache for scenario
@@ -466,7 +478,13 @@ namespace TrRouting {
     }
 
     std::shared_ptr<ConnectionSet> currentCache = std::make_shared<ConnectionSet>(cachedTrips, scenarioForwardConnections, scenarioReverseConnections);
+#ifdef TRROUTING_VERIF
+    trrouting_verif_point("before_publish");
+#endif
     scenarioConnectionCache->set(scenario.uuid, currentCache);
+#ifdef TRROUTING_VERIF
+    trrouting_verif_point("after_publish");
+#endif
     return currentCache;
     
   }
